@@ -7,8 +7,9 @@ export GOFLAGS=-mod=mod GOPROXY=off GOSUMDB=off GOTOOLCHAIN=local
 WT=/tmp/wtc/$NAME
 rm -rf $WT; mkdir -p /tmp/wtc
 git -C /repo worktree add -q --detach $WT HEAD || exit 3
-PKG=$(grep -o -m1 'casket[a-z]*/[a-z/]*\|casketfile\|caskettls' $SD/demo_test.go | head -1 | sed 's#/$##')
+# the demo is an in-package test: find the directory of the package it declares
 PKGNAME=$(grep -m1 '^package ' $SD/demo_test.go | awk '{print $2}')
+PKG=$(cd /repo && grep -rl --include='*.go' "^package $PKGNAME\$" . | grep -v _test.go | xargs -n1 dirname | sort -u | sed 's#^\./##' | head -1)
 [ -z "$PKG" ] && PKG=.
 OUT=/verif/seeded/$NAME; mkdir -p $OUT
 cp $SD/patch.diff $SD/demo_test.go $OUT/; [ -f $SD/notes.md ] && cp $SD/notes.md $OUT/
